@@ -54,6 +54,22 @@ Theorem C11_uneven_spacing_refused : forall st,
   snd (get_shape st) = Err EInvalidStack.
 Proof. exact C11_spacing_lemma. Qed.
 
+(** slice positions unevenly represented *)
+Theorem C11_uneven_positions_refused : forall st p q,
+  reachable st -> well_typed st ->
+  In p (map f_pos (files st)) -> In q (map f_pos (files st)) ->
+  occ_pos p (files st) <> occ_pos q (files st) ->
+  snd (get_shape st) = Err EInvalidStack.
+Proof. exact C11_positions_lemma. Qed.
+
+(** vector values unevenly represented *)
+Theorem C11_uneven_vectors_refused : forall st v w,
+  reachable st -> well_typed st ->
+  In v (map (base_vec (cfg_vec st)) (files st)) -> In w (map (base_vec (cfg_vec st)) (files st)) ->
+  occ_vec (cfg_vec st) v (files st) <> occ_vec (cfg_vec st) w (files st) ->
+  snd (get_shape st) = Err EInvalidStack.
+Proof. exact C11_vectors_lemma. Qed.
+
 (** a complete regular grid is never rejected, by any of the queries *)
 Theorem C11_regular_grid_accepted : forall st S T V,
   reachable st -> well_typed st -> grid_complete (cfg_time st) (cfg_vec st) (files st) S T V ->
@@ -132,6 +148,40 @@ Example C11_spacing_ex :
 Proof.
   repeat split; try apply ex_reach; try (vm_compute; reflexivity).
   intros H. apply spacing_ok_iff in H. vm_compute in H. discriminate.
+Qed.
+
+(** position 0 three times, position 1 once (the count still factors) *)
+Definition ex_upos : state :=
+  run (init true false) [OAdd (fl 0 0 (Some 1%Q) None 10); OAdd (fl 1 1 (Some 1%Q) None 10);
+                         OAdd (fl 2 0 (Some 2%Q) None 20); OAdd (fl 3 0 (Some 3%Q) None 30)].
+(** vector value 1 on three volumes, vector value 2 on one (4 volumes, 2 vector values) *)
+Definition ex_uvec : state :=
+  run (init true true)
+      [OAdd (fl 0 0 (Some 1%Q) (Some 1%Q) 10); OAdd (fl 1 1 (Some 1%Q) (Some 1%Q) 10);
+       OAdd (fl 2 0 (Some 2%Q) (Some 1%Q) 10); OAdd (fl 3 1 (Some 2%Q) (Some 1%Q) 10);
+       OAdd (fl 4 0 (Some 3%Q) (Some 1%Q) 10); OAdd (fl 5 1 (Some 3%Q) (Some 1%Q) 10);
+       OAdd (fl 6 0 (Some 1%Q) (Some 2%Q) 10); OAdd (fl 7 1 (Some 1%Q) (Some 2%Q) 10)].
+
+Example C11_uneven_positions_ex :
+  reachable ex_upos /\ well_typed ex_upos /\ length (files ex_upos) = 4 /\
+  In (q 0) (map f_pos (files ex_upos)) /\ In (q 1) (map f_pos (files ex_upos)) /\
+  occ_pos (q 0) (files ex_upos) = 3 /\ occ_pos (q 1) (files ex_upos) = 1.
+Proof.
+  repeat split; try apply ex_reach; try (vm_compute; reflexivity).
+  - left. vm_compute. reflexivity.
+  - right. left. vm_compute. reflexivity.
+Qed.
+
+Example C11_uneven_vectors_ex :
+  reachable ex_uvec /\ well_typed ex_uvec /\ length (files ex_uvec) = 8 /\
+  In (Some (q 1)) (map (base_vec (cfg_vec ex_uvec)) (files ex_uvec)) /\
+  In (Some (q 2)) (map (base_vec (cfg_vec ex_uvec)) (files ex_uvec)) /\
+  occ_vec true (Some (q 1)) (files ex_uvec) = 6 /\ occ_vec true (Some (q 2)) (files ex_uvec) = 2 /\
+  snd (get_shape ex_uvec) = Err EInvalidStack.
+Proof.
+  repeat split; try apply ex_reach; try (vm_compute; reflexivity).
+  - left. vm_compute. reflexivity.
+  - do 6 right. left. vm_compute. reflexivity.
 Qed.
 
 Example C11_accept_ex :
